@@ -334,7 +334,12 @@ def judge(ck, cases, codes, stats):
                 continue
         else:
             ids = set(oids) | set(mids)
-            if c["judged"] and mids and not oids:
+            if c["class"] == "writer" and mids and set(mids) - set(oids) and set(mids) - set(oids) <= set(c.get("triggers") or []):
+                # the writer model needs a reserved-key variant whose only visible trace on this request is indirect (a
+                # refused row whose other keys still enter the schema and decide a later row's type conflict): the
+                # request holds the finding's trigger, the attribution stands without an oracle failure of its own
+                pass
+            elif c["judged"] and mids and not oids:
                 ck.broken.append("C06: model needs deviation %s on case %d but the direct oracle saw no failure (%r)"
                                  % (mids, c["i"], c["text"][:120]))
                 ck.nofail_detail = dict(replay, kind="oracle-vs-model")
